@@ -29,7 +29,8 @@ TARGETS = ["Proofs.C13", "Proofs.Lemmas.CalendarLite"]
 GEN_PREFIXES = ["opt"]
 THEOREMS = {
     "Proofs.C13": ["VerifModel.C13." + t for t in [
-        "C13_range", "C13_range_default_step", "C13_commas", "C13_dates", "C13_dates_all",
+        "C13_range", "C13_range_default_step", "C13_commas", "C13_dates", "C13_dates_all", "C13_dates_descending",
+        "C13_rejects_date_range", "C13_rejects_malformed_scalar",
         "C13_order_irrelevant", "C13_config_inline", "C13_wiring", "C13_rejects_unknown_flag",
         "C13_rejects_missing_value", "C13_rejects_range_length", "C13_rejects_nonpositive_T",
         "C13_rejects_quantile", "C13_rejects_unknown_axis", "C13_rejects_unknown_aggregator",
@@ -57,15 +58,17 @@ TRUSTED_BASE = [
 ASSUMPTIONS = [
     "vector fields are decimal strings with at most 3 fractional digits (C13_range); outside that grid the 0.0001 "
     "end-point fudge of parse_numbers is visible (e.g. 0:1:0.99995) — documented by the code itself",
-    "date ranges: d1 <= d2 both valid civil dates in 1900-2100, whole positive day steps; a reversed date range "
-    "returns the ascending range (outside the documented grammar, mirrored by the model); a date step 0 < s < 1 "
-    "never terminates (known finding date-fractional-step-hang, run in a subprocess with a 5 s timeout)",
+    "date ranges: both ends valid civil dates in 1900-2100, whole day steps (positive: d1 <= d2, ascending; "
+    "negative: d1 >= d2, descending; |step| small enough that one step beyond the range stays inside datetime's "
+    "years 1-9999); a reversed range with a positive step returns the ascending range (outside the documented "
+    "grammar, mirrored by the model); a fractional date step and a first date that is not a calendar date are "
+    "rejected (C13_rejects_date_range; the former hang is still probed in a subprocess with a 5 s timeout)",
     "order invariance is claimed for command lines in which no two option groups assign the same variable",
     "file names do not start with '-' and tokens are non-empty; config files contain no nested --config",
 ]
 RULE = ("pn.grid: every start,end in {-3..3 step .5} u {.1,.25,.9} x step in +-{.1,.25,.5,1,2} as a:s:b, every a:b, "
         "plus comma mixtures; pn.dates: every month/year/leap boundary of 2011-2013, 1999-2000, 2099-2100 x offsets "
-        "x steps {default,1,2,7,30}; pn.malformed: fixed list of malformed strings; cli.parse: command lines drawn "
+        "x steps {default,1,2,7,30}, and the boundaries of 2012, 2000-03-01, 2100-03-01, 2013-01-01 counted down with steps {-1,-2,-7}; pn.malformed: fixed list of malformed strings; cli.parse: command lines drawn "
         "from the documented grammar (1-2 files, a metric, 0-7 distinct data/computation options with documented "
         "values, 0-2 appearance options, random order, 30% with 1-2 --config files); cli.dup: same with a repeated "
         "flag (model correspondence only); cli.bad: one documented rejection per line. An op is non-trivial if the "
@@ -286,6 +289,10 @@ def gen_pn(tier, rng):
                 yield "pn.dates", "parse_numbers s=%s:%s 1" % (ymd(d1), ymd(d2))
                 for st in (1, 2, 7, 30):
                     yield "pn.dates", "parse_numbers s=%s:%d:%s 1" % (ymd(d1), st, ymd(d2))
+        # counted down (few: before the repair of the date loop each of these walked back to year 1)
+        if B.year == 2012 or ymd(B) in ("20000301", "21000301", "20130101"):
+            for back, fwd, st in ((3, 2, 1), (3, 0, 2), (31, 2, 7)):
+                yield "pn.dates", "parse_numbers s=%s:-%d:%s 1" % (ymd(B + fwd * one), st, ymd(B - back * one))
     for y in (1999, 2000, 2011, 2012, 2013, 2099, 2100):
         yield "pn.dates", "parse_numbers s=%d0101:%d1231 1" % (y, y)
         yield "pn.dates", "parse_numbers s=%d0101:7:%d0101 1" % (y, y + 1)
@@ -293,9 +300,12 @@ def gen_pn(tier, rng):
     for s in ["20130101", "20130101,20130105", "20130101:20130101", "20130105:20130101", "20130228:20130230",
               "20130230", "20130230:20130301", "20130100:20130102", "20131301:20131302", "20130101:20130199",
               "20130101:1.5:20130105", "20130105:-1:20130101", "20130105:-2:20121230", "20130301:-1:20130227",
-              "20130101:0:20130105", "20130101:20130102:20130103:1", "2013010a", "20130101:", "20130101.5"]:
+              "20130101:0:20130105", "20130101:20130102:20130103:1", "2013010a", "20130101:", "20130101.5",
+              "20130101:-1:20130105", "20130105:-1.5:20130101", "20130105:-0.5:20130101", "20130105.5:-1:20130101",
+              "20130301:-1:20130230", "20130230:-1:20130101", "20130100:-1:20121230", "20130301:20130230",
+              "20130101:2.0:20130105", "-5:-1:-10", "0:5", "20130105:-3:20130101"]:
         yield "pn.dates.edge", "parse_numbers s=%s 1" % s
-    for s in ["20121231:0.25:20130101", "20130101:1.5:20130105", "20130101:2:20130105"]:
+    for s in ["20121231:0.25:20130101", "20130101:1.5:20130105", "20130101:2:20130105", "20130105:-0.5:20130101"]:
         yield "pn.dates.sub", "parse_numbers_sub s=%s 1" % s
     for s in MALFORMED:
         if " " in s:
@@ -481,6 +491,10 @@ def gen_bad(rng):
     for s in ["x", "1.5", "", "two", "1e1"]:
         if s:
             cases.append(("malformed-scalar", ins(base(), ["-T", s]), {}))
+            cases.append(("malformed-scalar", ["fa.txt", "-m", "mae", "--config", "k1.cfg"], {"k1.cfg": ["-T", s]}))
+    for f in ["-dpi", "-aspect", "-legfs", "-bottom", "-xrot", "-gw", "-afs"]:
+        for s in ["x", "1,2", "1.2.3"] + (["1.5"] if f == "-dpi" else []):
+            cases.append(("malformed-scalar", ins(base(), [f, s]), {}))
     cases.append(("list-without-files", ["--list-times"], {}))
     for k, toks, cfg in cases:
         yield "cli.bad", mkop(k, toks, cfg, badkind=k)
@@ -813,22 +827,7 @@ def same(a, b):
     return True, None
 
 
-def outside_domain(op):
-    """inputs outside the domain of the theorems, on which the model merely mirrors a recorded defect
-    (known_findings.txt): only the property oracle speaks there, so that a repair of the defect is not
-    reported as a correspondence break (DESIGN 2.4, domain discipline)"""
-    a = op.split(" ")
-    if a[0] in ("parse_numbers", "parse_numbers_sub") and a[2] == "1":
-        s = a[1][2:]
-        if all(c in "-0123456789.:," for c in s):
-            w = doc_dates(s)
-            return w == "undefined" or (isinstance(w, list) and ":-" in s)
-    return a[0] == "argvbad" and a[1] == "malformed-scalar"
-
-
 def cmp(op, impl_out, model_out):
-    if outside_domain(op):
-        return True
     return same(impl_out, model_out)[0]
 
 
